@@ -441,5 +441,25 @@ func c11(c *Ctx) (*report.Result, error) {
 	}
 	res.Explanation = "SSA of transport/mux.multiMuxManager (every mutation of the session table, the critical section it lies in and the notifyChange that must follow before the section ends), of grpcutil.MultiClientConn (how the connection map is derived from the table, who writes it, under which lock, and that resolver and dialer are fed from it in one critical section) and of the wiring in NewGRPCMuxManager / createServer / NewClusterConnection. Decides that after every applied update the dialable endpoint set equals the registered session set by construction; does not decide gRPC's balancer fail-over or outcomes of in-flight RPCs."
 	res.Assumptions = []string{"grpc manual resolver and custom dialer semantics", "listeners run synchronously inside notifyChange"}
+	res.RuleDoc["O11.5"] = "no blocking operation under the client connection's or the session table's locks except the reviewed ones (closing sessions during the shutdown sweep / of a session that arrives after shutdown): dialling, stream I/O, waits and calls through function values happen outside connMapLock and muxesLock"
+	{
+		var pk []*ssa.Package
+		for _, rel := range []string{"transport/grpcutil", "transport/mux", "transport/mux/session"} {
+			if spk, err := c.Prog.SSAPkg(rel); err == nil {
+				pk = append(pk, spk)
+			}
+		}
+		n := checkNoBlockingUnderLock(c, res, "O11.5", pk, func(string, string) bool { return true }, muxLockAllowed)
+		if n < 5 {
+			res.Undec("O11.5", "critical sections of the mux and client-connection packages", "", fmt.Sprintf("%d sections found", n))
+		}
+	}
 	return res, nil
+}
+
+// muxLockAllowed: blocking operations under the mux packages' locks that were reviewed (shared by C10 and C11).
+var muxLockAllowed = map[string]string{
+	"(*transport/mux.multiMuxManager).AddConnection [muxesLock]: call (*github.com/hashicorp/yamux.Session).Close": "shutdown branch only: the late session is closed instead of being dropped (F7); Close does not wait for the peer",
+	"(*transport/mux.multiMuxManager).AddConnection [muxesLock]: invoke Close":                                       "shutdown branch only: the late connection is closed (F7)",
+	"(*transport/mux.multiMuxManager).onClose [muxesLock]: invoke Close":                                            "shutdown sweep: sessions are closed under the table lock so that none can be added in between (O10.5); ManagedMuxSession.Close only trips the session's latch",
 }
